@@ -460,6 +460,180 @@ pub fn run_grace(c: &GraceCase) -> Outcome {
 	o
 }
 
+// ---------------------------------------------------------------------------------------------
+// C06 through the library's graceful quit: every running job gets a graceful stop
+
+#[derive(Clone, Debug, Serialize, Deserialize)]
+pub struct QuitCase {
+	pub helpers: Vec<Helper>,
+	/// the quit is requested in the same action that created and started the jobs
+	pub same_action: bool,
+	pub sig: u8,
+	pub grace_ms: u16,
+}
+
+pub fn quit_strategy() -> BoxedStrategy<QuitCase> {
+	let h = (0u8..3, 0u8..3, prop_oneof![Just(20u16), Just(150), Just(900)]).prop_map(|(wrap, react, delay_ms)| Helper { wrap, react, delay_ms, self_exit_ms: None });
+	(proptest::collection::vec(h, 1..4), any::<bool>(), 0u8..6, prop_oneof![Just(600u16), Just(1000)])
+		.prop_map(|(helpers, same_action, sig, grace_ms)| QuitCase { helpers, same_action, sig, grace_ms })
+		.boxed()
+}
+
+pub fn run_quit(c: &QuitCase) -> Outcome {
+	use watchexec::{Config, Watchexec};
+	use watchexec_events::{Event, Priority, Tag};
+	let mut o = Outcome::pass();
+	o.nontrivial = true;
+	o.label(if c.same_action { "quit-in-creating-action" } else { "quit-in-later-action" });
+	let n = c.helpers.len();
+	let logs_all: Vec<Logs> = (0..n).map(|_| Logs::new("vh-c06q-")).collect();
+	let (sig, signum) = SIGS[usize::from(c.sig) % SIGS.len()];
+	let grace_ns = u64::from(c.grace_ms) * 1_000_000;
+	let rt = tokio::runtime::Builder::new_multi_thread().worker_threads(2).enable_all().build().unwrap();
+	let t_quit = Arc::new(AtomicU64::new(0));
+	let cmds: Vec<Arc<Command>> = c.helpers.iter().zip(logs_all.iter()).map(|(h, l)| command(h, l)).collect();
+	let log_paths: Vec<std::path::PathBuf> = logs_all.iter().map(Logs::log).collect();
+	let res: Result<(Vec<(i32, u64, Option<u64>)>, bool), String> = rt.block_on(async {
+		let config = Config::default();
+		config.throttle(Duration::from_millis(0));
+		let same_action = c.same_action;
+		let g = Duration::from_millis(u64::from(c.grace_ms));
+		let t_quit2 = t_quit.clone();
+		let cmds2 = cmds.clone();
+		let log_paths2 = log_paths.clone();
+		config.on_action_async(move |mut action| {
+			let cmds = cmds2.clone();
+			let t_quit = t_quit2.clone();
+			let log_paths = log_paths2.clone();
+			Box::new(async move {
+				let phase = action.events.iter().find_map(crate::wxrun::id_of).unwrap_or(0);
+				if phase == 1 {
+					for cmd in &cmds {
+						let (_, job) = action.create_job(cmd.clone());
+						job.start();
+					}
+				}
+				if (phase == 1 && same_action) || phase == 2 {
+					// wait until every helper has reported in (bounded)
+					let until = mono_ns() + 8_000_000_000;
+					while mono_ns() < until && !log_paths.iter().all(|p| std::fs::read_to_string(p).map_or(false, |t| t.lines().any(|l| l.starts_with("start ")))) {
+						tokio::time::sleep(Duration::from_millis(3)).await;
+					}
+					tokio::time::sleep(Duration::from_millis(30)).await;
+					t_quit.store(mono_ns(), Ordering::SeqCst);
+					action.quit_gracefully(sig, g);
+				}
+				action
+			})
+		});
+		let wx = Watchexec::with_config(config).map_err(|e| e.to_string())?;
+		let mut main = wx.main();
+		let ev = |k: u32| Event { tags: vec![Tag::Process(k)], metadata: Default::default() };
+		wx.send_event(ev(1), Priority::Normal).await.map_err(|e| e.to_string())?;
+		if !c.same_action {
+			tokio::time::sleep(Duration::from_millis(20)).await;
+			wx.send_event(ev(2), Priority::Normal).await.map_err(|e| e.to_string())?;
+		}
+		// pollers start as soon as the pids are known
+		let until = mono_ns() + 9_000_000_000;
+		while mono_ns() < until && !logs_all.iter().all(|l| !starts(l).is_empty()) {
+			tokio::time::sleep(Duration::from_millis(2)).await;
+		}
+		if !logs_all.iter().all(|l| !starts(l).is_empty()) {
+			main.abort();
+			return Err("env".into());
+		}
+		let pollers: Vec<(i32, Poller)> = logs_all.iter().map(|l| starts(l)[0].0).map(|pid| (pid, Poller::new(pid))).collect();
+		let finished = tokio::time::timeout(Duration::from_millis(u64::from(c.grace_ms) + 9_000), &mut main).await.is_ok();
+		if !finished {
+			main.abort();
+		}
+		tokio::time::sleep(Duration::from_millis(150)).await;
+		Ok((pollers.into_iter().map(|(pid, p)| { let (la, fd) = p.finish(); (pid, la, fd) }).collect(), finished))
+	});
+	drop(rt);
+	let all_lines: Vec<Vec<Vec<String>>> = logs_all.iter().map(Logs::lines).collect();
+	for l in &logs_all {
+		kill_all(&l.pids());
+	}
+	let (obs, finished) = match res {
+		Ok(x) => x,
+		Err(_) => {
+			o.fail("env:helper-not-started", format!("a helper did not report in within 9 s\ncase {c:?}"));
+			return o;
+		}
+	};
+	let tq = t_quit.load(Ordering::SeqCst);
+	let dump = || {
+		let mut s = format!("\ncase {c:?}\nquit requested at t0; per job (pid, last seen alive, first seen dead) in ms after t0: {:?}; main finished: {finished}", obs.iter().map(|(p, la, fd)| (*p, rel(*la, tq), fd.map(|x| rel(x, tq)))).collect::<Vec<_>>());
+		for (i, lines) in all_lines.iter().enumerate() {
+			s.push_str(&format!("\njob {i} helper log:\n{}", lines.iter().map(|l| rel_line(l, tq)).collect::<Vec<_>>().join("\n")));
+		}
+		s
+	};
+	if tq == 0 {
+		o.fail("harness:quit-not-requested", format!("the handler never reached the quit{}", dump()));
+		return o;
+	}
+	if !finished {
+		o.fail("real-quit:main-did-not-finish", format!("main still running 9 s after the grace period{}", dump()));
+		return o;
+	}
+	for (i, h) in c.helpers.iter().enumerate() {
+		let (pid, last_alive, first_dead) = obs[i];
+		let lines = &all_lines[i];
+		let sig_line = lines.iter().find(|l| l.len() >= 4 && l[0] == "signal" && l[1] == pid.to_string());
+		let end_line = lines.iter().any(|l| l.len() >= 3 && l[0] == "end" && l[1] == pid.to_string());
+		let voluntary: Option<u64> = match h.react % 3 {
+			0 => Some(tq),
+			1 => None,
+			_ => Some(tq + u64::from(h.delay_ms) * 1_000_000),
+		};
+		let ends_within = voluntary.map_or(false, |v| v + 80_000_000 < tq + grace_ns);
+		let outlives = voluntary.map_or(true, |v| v > tq + grace_ns + 80_000_000);
+		// the requested signal, at once
+		match sig_line {
+			None => {
+				o.fail("real-quit:signal-not-delivered", format!("job {i}: the helper never logged a signal{}", dump()));
+				return o;
+			}
+			Some(l) => {
+				let got: i32 = l[3].parse().unwrap_or(-1);
+				let at: u64 = l[2].parse().unwrap_or(0);
+				if got != signum {
+					o.fail("real-quit:wrong-signal", format!("job {i}: first signal {got}, requested {signum}{}", dump()));
+					return o;
+				}
+				// every job is signalled when the quit is handled, not one after the other: well within half a second
+				if at > tq + 500_000_000 {
+					o.fail("real-quit:signal-late", format!("job {i}: the signal arrived {:.1} ms after the quit was requested{}", rel(at, tq), dump()));
+					return o;
+				}
+			}
+		}
+		// no kill before the grace period is over
+		if outlives {
+			if let Some(fd) = first_dead {
+				if fd < tq + grace_ns {
+					o.fail("real-quit:killed-before-grace", format!("job {i}: seen dead {:.1} ms after the quit, grace {} ms{}", rel(fd, tq), c.grace_ms, dump()));
+					return o;
+				}
+			}
+		}
+		if ends_within && !end_line {
+			o.fail("real-quit:killed-before-grace", format!("job {i}: the helper ends by itself within the grace period but never logged its own end{}", dump()));
+			return o;
+		}
+		// killed at expiry
+		let bound = tq + grace_ns.min(voluntary.map_or(u64::MAX, |v| v - tq)) + SLACK_NS;
+		if first_dead.is_none() || last_alive > bound {
+			o.fail("real-quit:not-killed-at-expiry", format!("job {i}: still alive {:.1} ms after the quit{}", rel(last_alive, tq), dump()));
+			return o;
+		}
+	}
+	o
+}
+
 fn rel(t: u64, t0: u64) -> f64 {
 	(t as f64 - t0 as f64) / 1e6
 }
